@@ -535,3 +535,51 @@ def nontrivial_verdicts(line, ans):
         return False
     letters = "".join(V.values())
     return ("S" in letters or "U" in letters) and len(V) >= 1
+
+
+# ------------------------------------------------------------------ additions for the all-domains streams (checks/fwddoms.py)
+
+def add_assumptions(line, rng, prob=0.5):
+    """appends `A <blk> <C> ...` sections (assumption map of the analyzer's general run(entry, init, assumptions)): with
+    probability `prob`, one or two blocks get an interval or a two-variable constraint as assumption.  The concrete
+    meaning (run_concrete) is: an execution that enters the block in a state violating its assumption stops there."""
+    if rng.random() >= prob:
+        return line
+    P = parse(line)
+    nb, nv = P["nb"], P["nv"]
+    extra = []
+    for b in rng.sample(range(nb), min(nb, rng.choice([1, 1, 2]))):
+        cs = []
+        for _ in range(rng.choice([1, 1, 2])):
+            v = rng.randrange(nv)
+            r = rng.random()
+            if r < 0.4:
+                cs.append(("le", ([(1, v)], -rng.choice([0, 1, 3, 5, 10, 50]))))          # v <= k
+            elif r < 0.7:
+                cs.append(("le", ([(-1, v)], rng.choice([0, 1, -1, 3, -5, 10]))))         # v >= -k
+            elif r < 0.9 and nv >= 2:
+                w = rng.choice([x for x in range(nv) if x != v])
+                a, b2 = sorted([v, w])
+                cs.append(("le", ([(1, a), (-1, b2)], rng.choice([0, 1, -1, 2, -3]))))    # a - b <= k
+            else:
+                cs.append(gen_cst(rng, nv, kinds=("le", "eq", "ne", "lt"), small=True, maxterms=2))
+        extra.append("A %d %s" % (b, " ".join(fmt_cst(c) for c in cs)))
+    return line + " | " + " | ".join(extra)
+
+
+def loop_heads(P):
+    """targets of the retreating edges of the generator's block numbering (a >= b)"""
+    return sorted(set(b for a, b in P["edges"] if a >= b))
+
+
+def nontrivial_loop(line, ans):
+    """rule: the program has a loop head whose reported entry invariant is neither bottom nor top"""
+    P = parse(line)
+    tabs = parse_tables(ans, P["nb"])
+    if not tabs:
+        return False
+    for h in loop_heads(P):
+        pre = tabs[h][0]
+        if pre != "bot" and any(i not in ((None, None), None) for i in pre):
+            return True
+    return False
